@@ -894,6 +894,8 @@ class Variant(VariantBase):
 
         if self.type == "layered-product":
             self.release.deserialize(data)
+            # the release of a layered product is layered, spelled out in the file or not (serialize() says so, too)
+            self.release.is_layered = True
 
         paths = data["paths"]
         self.paths.deserialize(paths)
